@@ -496,12 +496,15 @@ def State.step (s : State) : Cmd → Option (State × Class × List Ev)
     else some ({ s with tokens := s.tokens ++ [mkToken l ps n k] }, .ok, [])
   | .tokRevoke l =>
     match s.findToken l with
-    | some t => if t.rootTTL0 || t.batch then Option.none else
+    -- (a batch token has no entry to delete: it stops being a live token when its PARENT is revoked — recorded by the
+    -- harness as the batch token's own revocation)
+    | some t => if t.rootTTL0 then Option.none else
       some ({ s with tokens := s.tokens.map fun u => if u.label == l then { u with revoked := true } else u }, .ok, [])
     | Option.none => Option.none
   | .tokExpire l =>
     match s.findToken l with
-    | some t => if t.rootTTL0 || t.batch then Option.none else
+    -- (a batch token expires by the creation time + TTL it carries)
+    | some t => if t.rootTTL0 then Option.none else
       some ({ s with tokens := s.tokens.map fun u => if u.label == l then { u with expired := true } else u }, .ok, [])
     | Option.none => Option.none
   | .entDisable e off =>
